@@ -259,3 +259,84 @@ func VerifC15Suspensions() {
 	}
 	zz.Assert(same, "C15.suspends-exactly-at-active-breakpoints-reached-from-another-line")
 }
+
+var c15BookSources = []string{"t", "tt", "t/u"} // names in a prefix relation
+
+// VerifC15BreakpointBook: "setting, disabling or removing any breakpoints": a symbolic sequence of break / disablebreak /
+// rmbreak <source>:<line> / rmbreak <source> commands (through the real command handler) over three sources whose names are
+// prefixes of one another and two lines is mirrored in a table; the program (source name symbolic) then suspends exactly at
+// the lines whose breakpoint is active in the table - no command touches the breakpoints of another source or line.
+func VerifC15BreakpointBook() {
+	erp, _ := zzProvider()
+	vs := scope.NewScope(scope.GlobalScope)
+	dbg := NewECALDebugger(scope.NewScope(scope.GlobalScope))
+	erp.Debugger = dbg
+	dbg.BreakOnError(false)
+	ps := zz.Choice("programSource", len(c15BookSources))
+	ast, err := parser.ParseWithRuntime(c15BookSources[ps], "a := 1\nb := 2\nc := 3\n", erp)
+	zz.Assert(err == nil && ast.Runtime.Validate() == nil, "C15.setup")
+	state := map[string]int{} // "source:line" -> 1 active, 2 disabled
+	k := zz.Param("OPS", 2)
+	for i := 0; i < k; i++ {
+		op := zz.Choice("op"+c15Lbl[i], 4)
+		s := c15BookSources[zz.Choice("source"+c15Lbl[i], len(c15BookSources))]
+		l := 1 + zz.Choice("line"+c15Lbl[i], 2)
+		key := s + ":" + c15Lbl[l]
+		var cerr error
+		switch op {
+		case 0:
+			_, cerr = dbg.HandleInput("break " + key)
+			state[key] = 1
+		case 1:
+			_, cerr = dbg.HandleInput("disablebreak " + key)
+			state[key] = 2
+		case 2:
+			_, cerr = dbg.HandleInput("rmbreak " + key)
+			delete(state, key)
+		case 3:
+			_, cerr = dbg.HandleInput("rmbreak " + s)
+			for _, l2 := range []string{"1", "2", "3"} {
+				delete(state, s+":"+l2)
+			}
+		}
+		zz.Assert(cerr == nil, "C15.breakpoint-command-accepted")
+	}
+	var want []int
+	for l := 1; l <= 3; l++ {
+		if state[c15BookSources[ps]+":"+c15Lbl[l]] == 1 {
+			want = append(want, l)
+		}
+	}
+	finished := false
+	go func() {
+		ast.Runtime.Eval(vs, make(map[string]interface{}), 7)
+		finished = true
+	}()
+	var got []int
+	for i := 0; i < 5 && !finished; i++ {
+		zz.Quiesce()
+		if finished {
+			break
+		}
+		ed := dbg.(*ecalDebugger)
+		ed.lock.RLock()
+		is := ed.interrogationStates[7]
+		ed.lock.RUnlock()
+		zz.Assert(is != nil && !is.running, "C15.idle-unfinished-thread-is-suspended")
+		if is == nil {
+			break
+		}
+		got = append(got, is.node.Token.Lline)
+		dbg.Continue(7, util.Resume)
+	}
+	if !finished {
+		zz.Quiesce()
+	}
+	zz.Assert(finished, "C15.program-finishes-under-resume")
+	zz.Reach("compared")
+	same := len(got) == len(want)
+	for i := 0; same && i < len(got); i++ {
+		same = got[i] == want[i]
+	}
+	zz.Assert(same, "C15.suspends-exactly-at-the-breakpoints-left-active-by-the-commands")
+}
